@@ -14,6 +14,8 @@ Abstract operations (records {k, a, v} of ConnMode.tla) -> real calls on (store,
   st_set(key, v)     ss.set(key, v)                                                       -> "ok"
   st_set_state(k,v)  ss.set_state(DictState(**{k: v}))                                    -> "ok"
   st_clear           ss.clear()                                                           -> "ok"
+  st_seed            store.create_state_store(new run, serialized_state={"store_type": "sqlite", "run_id": r},
+                     serializer).get_state()      (a run continued from this run's state)   -> "a,b" values
 Results are rendered as the strings the spec uses; an exception gives r = "error" and exc = "<Type>:<feature>".
 mode: "percall" | "single" | "masked" (single connection whose close() is neutralised by the harness: the
 known defect masked, to keep checking the rest of the property).
@@ -109,6 +111,7 @@ def run_ops(stores: ConnStores, mode, ops, fresh_state_store=False, keys=("a",))
     loop = vloop.new_loop()
     ss = [None]
     neid = [0]
+    nseed = [0]
 
     def state_store():
         if ss[0] is None or fresh_state_store:
@@ -161,6 +164,13 @@ def run_ops(stores: ConnStores, mode, ops, fresh_state_store=False, keys=("a",))
         if k == "st_clear":
             R(state_store().clear())
             return "ok", "-"
+        if k == "st_seed":
+            from workflows.context.serializers import JsonSerializer
+            nseed[0] += 1
+            ss2 = store.create_state_store("%s_s%d" % (run, nseed[0]),
+                                           serialized_state={"store_type": "sqlite", "run_id": run}, serializer=JsonSerializer())
+            st = R(ss2.get_state())
+            return "%s,%s" % (st.get("a", 0), st.get("b", 0) if "b" in keys else "-"), type(st).__name__
         raise ValueError(k)
 
     out = []
